@@ -1,6 +1,7 @@
 package props
 
 import (
+	fundraising "github.com/tendermint/fundraising/x/fundraising/module"
 	"github.com/tendermint/fundraising/x/fundraising/types"
 
 	"verif/harness/env"
@@ -10,6 +11,43 @@ import (
 
 func init() {
 	register("H_C14_Settle", H_C14_Settle)
+	register("H_C14_SetHooks", H_C14_SetHooks)
+}
+
+// H_C14_SetHooks: the order in which hook listeners of several modules are
+// registered (and therefore called) does not depend on the iteration order of
+// the map they are supplied in.
+func H_C14_SetHooks() {
+	now := nd.Time("now")
+	order := func(permute bool) []string {
+		e := env.New(now)
+		var log []string
+		mk := func(name string) *model.Listener {
+			l := &model.Listener{Name: name}
+			l.Clock = func() int { log = append(log, name); return 0 }
+			return l
+		}
+		hooks := map[string]types.FundraisingHooks{"gamma": mk("gamma"), "alpha": mk("alpha"), "beta": mk("beta")}
+		if permute {
+			nd.Option("permute-maps")
+		}
+		k := e.K
+		err := fundraising.InvokeSetHooks(&k, hooks)
+		nd.Assert("C14.sethooks-succeeds", err == nil)
+		_ = k.BeforeAuctionCanceled(e.Ctx, 0, user(0))
+		return log
+	}
+	first := order(false)
+	reps := 1
+	if !nd.Symbolic() {
+		reps = 16
+	}
+	for r := 0; r < reps; r++ {
+		second := order(true)
+		nd.Assert("C14.hook-order-independent-of-map-order", len(first) == 3 && len(second) == 3 && first[0] == second[0] && first[1] == second[1] && first[2] == second[2])
+	}
+	nd.Assert("C14.hook-order-lexical", len(first) == 3 && first[0] == "alpha" && first[1] == "beta" && first[2] == "gamma")
+	nd.Cover("hooks-registered")
 }
 
 type c14Result struct {
@@ -33,7 +71,7 @@ func H_C14_Settle() {
 		e := env.New(now)
 		setParams(e, "p.")
 		sp := aSpec{id: 0, batch: batch, status: types.AuctionStatusStarted, auctioneer: 0, nBids: nd.Param("bids", 2),
-			nSched: nSched, nEnd: 1, nUsers: nd.Param("users", 2), allowAll: true}
+			nSched: nSched, nEnd: 1, nUsers: nd.Param("users", 2), allowAll: true, flagsFalse: true}
 		st := buildAuction(e, "a.", sp)
 		setAuctionSeq(e, 1)
 		nd.Assume(!st.base.EndTimes[0].After(now)) // the block settles the auction
